@@ -524,6 +524,15 @@ fn want(name: &str) -> bool {
 }
 
 pub fn run(env: &Env) {
+    if want("rt-order") {
+        env.campaign(
+            "rt-order",
+            "contexts built through unusual API call orders (graphs created/finalized in any order, calls towards older and younger graphs, outputs anywhere); what the builder lets through must round-trip",
+            env.n(20_000, 500_000),
+            crate::c12_order::arb_case,
+            crate::c12_order::oracle,
+        );
+    }
     env.assume("text equality is demanded only for two serializations of the SAME context object; a reloaded context is compared by deep_equal, an independent getter-level comparison and JSON-value equality of its re-serialization (object key order ignored: Join header maps)");
     env.assume("a pass (instantiate/inline/optimize/compile) that rejects or panics on a decorated recipe is counted as a skip: C12 judges serialization of the contexts the library does produce");
     env.assume("evaluation equality uses SimpleEvaluator::new(Some(seed)) with the same seed on both sides (deep-equal graphs draw randomness in the same order); a runtime error must be the same error on both sides");
@@ -599,6 +608,9 @@ pub fn run(env: &Env) {
 }
 
 pub fn replay(check: &str, case: J) -> Outcome {
+    if check == "rt-order" {
+        return replay_with::<crate::c12_order::OrderCase, _>(case, crate::c12_order::oracle);
+    }
     match check {
         "rt-plain" | "rt-passes" | "rt-compiled" => replay_with::<RtCase, _>(case, oracle_rt),
         "custom-op-tags" => replay_with::<TagCase, _>(case, oracle_tag),
